@@ -1,0 +1,575 @@
+//! Verification hooks. Compiled only with `--cfg vicut_verif`; never part of a normal build.
+//!
+//! * `serve_if_requested()` — when `VICUT_VERIF_SERVER` is set, read one JSON request per line on
+//!   stdin, run the *real* function it names in-process, answer one JSON line on stdout.
+//! * `dump_opts_if_requested()` — when `VICUT_VERIF_DUMP_OPTS` is set, print the parsed `Opts`
+//!   (the real `Opts::parse` / `parse_vic` result chosen by `main`) and exit.
+//! * `jitter()` — seeded scheduling perturbation at the start of every unit of work.
+//! * `trace_*()` — per-key observations from inside the real key loop.
+use std::cell::RefCell;
+use std::io::{BufRead, Write};
+use std::path::PathBuf;
+use std::sync::Mutex;
+
+use serde_json::{json, Map, Value};
+use unicode_segmentation::UnicodeSegmentation;
+
+use crate::exec::{Val, ViCut};
+use crate::linebuf::{CharClass, Edit, LineBuf, MotionKind};
+use crate::reader::{KeyReader, RawReader};
+use crate::register::{RegisterContent, REGISTERS};
+use crate::vic::CmdArg;
+use crate::vicmd::ViCmd;
+use crate::{Cmd, Opts};
+
+static LAST_PANIC: Mutex<Option<(String, String)>> = Mutex::new(None);
+
+thread_local! {
+	static TRACE: RefCell<Option<Vec<Value>>> = const { RefCell::new(None) };
+}
+
+// ---------------------------------------------------------------- canonical printers
+
+fn regcontent_json(c: &RegisterContent) -> Value {
+	match c {
+		RegisterContent::Span(s) => json!(["span", s]),
+		RegisterContent::Line(s) => json!(["line", s]),
+		RegisterContent::Block(v) => json!(["block", v]),
+		RegisterContent::Empty => json!(["empty", ""]),
+	}
+}
+
+fn regs_json() -> Value {
+	let mut m = Map::new();
+	REGISTERS.with_borrow(|regs| {
+		let names = std::iter::once(None).chain(('a'..='z').map(Some));
+		for name in names {
+			if let Some(r) = regs.get_reg(name) {
+				let c = r.content();
+				let trivial = matches!(c, RegisterContent::Span(s) if s.is_empty());
+				if !trivial {
+					let key = name.map(|c| c.to_string()).unwrap_or_default();
+					m.insert(key, regcontent_json(c));
+				}
+			}
+		}
+	});
+	Value::Object(m)
+}
+
+fn set_regs(v: &Value) {
+	let Some(obj) = v.as_object() else { return };
+	for (k, val) in obj {
+		let name = k.chars().next();
+		let kind = val[0].as_str().unwrap_or("span");
+		let content = match kind {
+			"line" => RegisterContent::Line(val[1].as_str().unwrap_or("").to_string()),
+			"block" => RegisterContent::Block(
+				val[1].as_array().map(|a| a.iter().map(|s| s.as_str().unwrap_or("").to_string()).collect()).unwrap_or_default(),
+			),
+			"empty" => RegisterContent::Empty,
+			_ => RegisterContent::Span(val[1].as_str().unwrap_or("").to_string()),
+		};
+		crate::register::write_register(name, content);
+	}
+}
+
+/// Parse the derived Debug of ClampedUsize: `ClampedUsize { value: 1, min: 0, max: 3, exclusive: true }`
+fn clamp_json(dbg: &str) -> Value {
+	let field = |name: &str| -> String {
+		let pat = format!("{name}: ");
+		dbg.find(&pat)
+			.map(|i| dbg[i + pat.len()..].chars().take_while(|c| c.is_alphanumeric()).collect::<String>())
+			.unwrap_or_default()
+	};
+	json!({
+		"value": field("value").parse::<usize>().unwrap_or(0),
+		"min": field("min").parse::<usize>().unwrap_or(0),
+		"max": field("max").parse::<usize>().unwrap_or(0),
+		"exclusive": field("exclusive") == "true",
+	})
+}
+
+fn edit_json(e: &Edit) -> Value {
+	json!({
+		"pos": e.pos, "cursor_pos": e.cursor_pos, "merge_pos": e.merge_pos,
+		"old": e.old, "new": e.new, "old_diff": e.old_diff, "new_diff": e.new_diff, "merging": e.merging,
+	})
+}
+
+fn fresh_offsets(s: &str) -> Vec<usize> {
+	s.grapheme_indices(true).map(|(i, _)| i).collect()
+}
+
+fn linebuf_json(lb: &LineBuf) -> Value {
+	json!({
+		"buf": lb.buffer,
+		"cur": clamp_json(&format!("{:?}", lb.cursor)),
+		"cache": lb.grapheme_indices,
+		"fresh": fresh_offsets(&lb.buffer),
+		"sel_mode": lb.select_mode.as_ref().map(|m| format!("{m:?}")),
+		"sel_range": lb.select_range.as_ref().map(|r| format!("{r:?}")),
+		"last_sel": lb.last_selection.as_ref().map(|r| format!("{r:?}")),
+		"saved_col": lb.saved_col,
+		"ins_start": lb.insert_mode_start_pos,
+		"last_search": lb.last_pattern_search.as_ref().map(|r| r.as_str().to_string()),
+		"undo": lb.undo_stack.iter().map(edit_json).collect::<Vec<_>>(),
+		"redo": lb.redo_stack.iter().map(edit_json).collect::<Vec<_>>(),
+	})
+}
+
+/// What the editor reports about its position, computed on a *clone* so that observing never
+/// refreshes the real cache.
+fn builtins_json(lb: &LineBuf) -> Value {
+	let lb = lb.clone();
+	let r = std::panic::catch_unwind(move || {
+		let mut lb = lb;
+		let col = lb.cursor_col() + 1;
+		let line = lb.cursor_line_number() + 1;
+		let lines = lb.total_lines();
+		let pos = lb.cursor_byte_pos();
+		let buf_len = lb.buffer.len();
+		let ch = lb.grapheme_at_cursor().map(|s| s.to_string()).unwrap_or_default();
+		json!({"col": col, "line": line, "lines": lines, "pos": pos, "buf_len": buf_len, "char": ch})
+	});
+	r.unwrap_or(json!("panic"))
+}
+
+fn vicut_json(v: &ViCut) -> Value {
+	let idx = v.editor.get();
+	let lb = &v.buffers[idx];
+	let mut st = linebuf_json(lb);
+	let o = st.as_object_mut().unwrap();
+	o.insert("mode".into(), json!(format!("{:?}", v.mode.report_mode())));
+	o.insert("pending".into(), json!(v.mode.pending_seq()));
+	o.insert("rep".into(), json!(v.repeat_action.as_ref().map(replay_str)));
+	o.insert("rep_motion".into(), json!(v.repeat_motion.as_ref().map(|m| format!("{m:?}"))));
+	o.insert("regs".into(), regs_json());
+	o.insert("escaped".into(), json!(v.reader.is_escaped));
+	o.insert("bytes_left".into(), json!(v.reader.bytes.len()));
+	o.insert("builtins".into(), builtins_json(lb));
+	o.insert("nbuf".into(), json!(v.buffers.len()));
+	st
+}
+
+fn vicmd_str(c: &ViCmd) -> String {
+	format!("(cmd reg={:?}/{}/{} verb={:?} motion={:?} flags={})",
+		c.register.name(), c.register.count(), c.register.is_append(), c.verb, c.motion, c.flags.bits())
+}
+
+fn replay_str(r: &crate::modes::CmdReplay) -> String {
+	use crate::modes::CmdReplay as R;
+	match r {
+		R::Single(c) => format!("(single {})", vicmd_str(c)),
+		R::ModeReplay { cmds, repeat } => format!("(mode {} [{}])", repeat, cmds.iter().map(vicmd_str).collect::<Vec<_>>().join(" ")),
+		R::Motion(m) => format!("(motion {m:?})"),
+	}
+}
+
+// ---------------------------------------------------------------- Cmd trees
+
+fn cmdarg_json(a: &CmdArg) -> Value {
+	match a {
+		CmdArg::Literal(Val::Str(s)) => json!({"lit": s}),
+		CmdArg::Count(n) => json!({"count": n}),
+		CmdArg::Var(v) => json!({"var": v}),
+		CmdArg::Null => json!({"null": true}),
+		other => json!({"dbg": format!("{other:?}")}),
+	}
+}
+
+pub fn cmd_json(c: &Cmd) -> Value {
+	match c {
+		Cmd::BreakGroup => json!({"t": "next"}),
+		Cmd::Motion(a) => json!({"t": "move", "arg": cmdarg_json(a)}),
+		Cmd::Field(a) => json!({"t": "cut", "arg": cmdarg_json(a)}),
+		Cmd::NamedField(n, a) => json!({"t": "cut", "name": n, "arg": cmdarg_json(a)}),
+		Cmd::Repeat { body, count } => json!({"t": "repeat", "count": cmdarg_json(count), "body": body.iter().map(cmd_json).collect::<Vec<_>>()}),
+		Cmd::Global { pattern, then_cmds, else_cmds, polarity } => json!({
+			"t": "global", "pattern": cmdarg_json(pattern), "polarity": polarity,
+			"then": then_cmds.iter().map(cmd_json).collect::<Vec<_>>(),
+			"else": else_cmds.as_ref().map(|cs| cs.iter().map(cmd_json).collect::<Vec<_>>()),
+		}),
+		other => json!({"t": "other", "dbg": format!("{other:?}")}),
+	}
+}
+
+fn cmdarg_from(v: &Value) -> CmdArg {
+	if let Some(s) = v.get("lit").and_then(|s| s.as_str()) {
+		CmdArg::Literal(Val::Str(s.to_string()))
+	} else if let Some(n) = v.get("count").and_then(|n| n.as_u64()) {
+		CmdArg::Count(n as usize)
+	} else if let Some(s) = v.get("var").and_then(|s| s.as_str()) {
+		CmdArg::Var(s.to_string())
+	} else {
+		CmdArg::Null
+	}
+}
+
+fn cmds_from(v: &Value) -> Vec<Cmd> {
+	v.as_array().map(|a| a.iter().map(cmd_from).collect()).unwrap_or_default()
+}
+
+fn cmd_from(v: &Value) -> Cmd {
+	match v["t"].as_str().unwrap_or("") {
+		"next" => Cmd::BreakGroup,
+		"move" => Cmd::Motion(cmdarg_from(&v["arg"])),
+		"cut" => match v.get("name").and_then(|n| n.as_str()) {
+			Some(n) => Cmd::NamedField(n.to_string(), cmdarg_from(&v["arg"])),
+			None => Cmd::Field(cmdarg_from(&v["arg"])),
+		},
+		"repeat" => Cmd::Repeat { body: cmds_from(&v["body"]), count: cmdarg_from(&v["count"]) },
+		"global" => Cmd::Global {
+			pattern: cmdarg_from(&v["pattern"]),
+			then_cmds: cmds_from(&v["then"]),
+			else_cmds: if v["else"].is_null() { None } else { Some(cmds_from(&v["else"])) },
+			polarity: v["polarity"].as_bool().unwrap_or(true),
+		},
+		_ => Cmd::BreakGroup,
+	}
+}
+
+pub fn opts_json(o: &Opts) -> Value {
+	json!({
+		"delimiter": o.delimiter, "template": o.template, "max_jobs": o.max_jobs,
+		"backup_extension": o.backup_extension,
+		"edit_inplace": o.edit_inplace, "json": o.json, "trace": o.trace, "linewise": o.linewise,
+		"trim_fields": o.trim_fields, "keep_mode": o.keep_mode, "backup_files": o.backup_files,
+		"single_thread": o.single_thread, "global_uses_line_numbers": o.global_uses_line_numbers,
+		"no_input": o.no_input, "silent": o.silent,
+		"pipe_in": o.pipe_in, "pipe_out": o.pipe_out,
+		"out_file": o.out_file.as_ref().map(|p| p.to_string_lossy().to_string()),
+		"cmds": o.cmds.iter().map(cmd_json).collect::<Vec<_>>(),
+		"cmds_dbg": format!("{:?}", o.cmds),
+		"files": o.files.iter().map(|p| p.to_string_lossy().to_string()).collect::<Vec<_>>(),
+	})
+}
+
+fn opts_from(v: &Value) -> Opts {
+	let b = |k: &str| v.get(k).and_then(|x| x.as_bool()).unwrap_or(false);
+	let s = |k: &str| v.get(k).and_then(|x| x.as_str()).map(|x| x.to_string());
+	Opts {
+		delimiter: s("delimiter"),
+		template: s("template"),
+		max_jobs: v.get("max_jobs").and_then(|x| x.as_u64()).map(|x| x as u32),
+		backup_extension: s("backup_extension"),
+		edit_inplace: b("edit_inplace"),
+		json: b("json"),
+		trace: false,
+		linewise: b("linewise"),
+		trim_fields: b("trim_fields"),
+		keep_mode: b("keep_mode"),
+		backup_files: b("backup_files"),
+		single_thread: b("single_thread"),
+		global_uses_line_numbers: b("global_uses_line_numbers"),
+		no_input: b("no_input"),
+		silent: b("silent"),
+		pipe_in: None,
+		pipe_out: None,
+		out_file: None,
+		cmds: cmds_from(&v["cmds"]),
+		files: v.get("files").and_then(|f| f.as_array())
+			.map(|a| a.iter().filter_map(|p| p.as_str()).map(PathBuf::from).collect()).unwrap_or_default(),
+	}
+}
+
+fn records_from(v: &Value) -> Vec<Vec<(String, String)>> {
+	v.as_array().map(|recs| recs.iter().map(|rec| {
+		rec.as_array().map(|fs| fs.iter().map(|f| {
+			(f[0].as_str().unwrap_or("").to_string(), f[1].as_str().unwrap_or("").to_string())
+		}).collect()).unwrap_or_default()
+	}).collect()).unwrap_or_default()
+}
+
+fn records_json(r: &[Vec<(String, String)>]) -> Value {
+	json!(r.iter().map(|rec| rec.iter().map(|(k, v)| json!([k, v])).collect::<Vec<_>>()).collect::<Vec<_>>())
+}
+
+// ---------------------------------------------------------------- hooks called from the real code
+
+/// Called at the top of `main()`.
+pub fn serve_if_requested() -> bool {
+	if std::env::var_os("VICUT_VERIF_SERVER").is_none() {
+		return false
+	}
+	serve();
+	true
+}
+
+/// Called in `main()` right after `opts` has been computed.
+pub fn dump_opts_if_requested(opts: &Opts) {
+	if std::env::var_os("VICUT_VERIF_DUMP_OPTS").is_none() {
+		return
+	}
+	println!("{}", opts_json(opts));
+	std::process::exit(0);
+}
+
+/// Called at the top of `execute()`: a seeded, input-dependent delay that perturbs the order in
+/// which rayon workers finish their units.
+pub fn jitter(input: &str) {
+	let Ok(seed) = std::env::var("VICUT_VERIF_JITTER") else { return };
+	let seed: u64 = seed.parse().unwrap_or(1);
+	let mut h: u64 = 0xcbf29ce484222325 ^ seed.wrapping_mul(0x9E3779B97F4A7C15);
+	for b in input.bytes() {
+		h ^= b as u64;
+		h = h.wrapping_mul(0x100000001b3);
+	}
+	h ^= h >> 29;
+	match h % 4 {
+		0 => {}
+		1 => std::thread::yield_now(),
+		2 => std::thread::sleep(std::time::Duration::from_micros(h % 300)),
+		_ => std::thread::sleep(std::time::Duration::from_micros(300 + h % 1500)),
+	}
+}
+
+/// Called from `ViCut::exec_loop` after every executed `ViCmd`.
+pub fn trace_after(v: &ViCut, cmd: &ViCmd) {
+	let on = TRACE.with_borrow(|t| t.is_some());
+	if !on { return }
+	let entry = json!({"k": "cmd", "cmd": vicmd_str(cmd), "st": vicut_json(v)});
+	TRACE.with_borrow_mut(|t| if let Some(t) = t.as_mut() { t.push(entry) });
+}
+
+/// Called from `LineBuf::exec_cmd` once the motion has been evaluated.
+pub fn trace_motion(lb: &LineBuf, cmd: &ViCmd, mk: &MotionKind) {
+	let on = TRACE.with_borrow(|t| t.is_some());
+	if !on { return }
+	let entry = json!({
+		"k": "lb", "cmd": vicmd_str(cmd), "mk": format!("{mk:?}"),
+		"buf": lb.buffer, "cur": clamp_json(&format!("{:?}", lb.cursor)),
+		"sel_range": lb.select_range.as_ref().map(|r| format!("{r:?}")),
+		"regs": regs_json(),
+	});
+	TRACE.with_borrow_mut(|t| if let Some(t) = t.as_mut() { t.push(entry) });
+}
+
+/// Called from `LineBuf::exec_cmd` when it is done (after its epilogue).
+pub fn trace_lb_done(lb: &LineBuf) {
+	let on = TRACE.with_borrow(|t| t.is_some());
+	if !on { return }
+	let entry = json!({
+		"k": "lb_done", "buf": lb.buffer, "cur": clamp_json(&format!("{:?}", lb.cursor)),
+		"regs": regs_json(), "undo_n": lb.undo_stack.len(), "redo_n": lb.redo_stack.len(),
+	});
+	TRACE.with_borrow_mut(|t| if let Some(t) = t.as_mut() { t.push(entry) });
+}
+
+fn take_trace() -> Vec<Value> {
+	TRACE.with_borrow_mut(|t| t.as_mut().map(std::mem::take).unwrap_or_default())
+}
+
+// ---------------------------------------------------------------- the server
+
+fn key_json(k: &crate::keys::KeyEvent) -> Value {
+	use crate::keys::KeyCode as K;
+	let (code, payload) = match &k.0 {
+		K::Char(c) => ("Char", c.to_string()),
+		K::Grapheme(g) => ("Grapheme", g.to_string()),
+		K::F(n) => ("F", n.to_string()),
+		other => {
+			let s = format!("{other:?}");
+			return json!([s, "", k.1.bits()])
+		}
+	};
+	json!([code, payload, k.1.bits()])
+}
+
+fn op_session(req: &Value) -> Value {
+	let text = req["text"].as_str().unwrap_or("").to_string();
+	let cursor = req["cursor"].as_u64().unwrap_or(0) as usize;
+	let keep_mode = req["keep_mode"].as_bool().unwrap_or(false);
+	let want_trace = req["trace"].as_bool().unwrap_or(false);
+	set_regs(&req["regs"]);
+	let mut v = ViCut::new(text, cursor).unwrap();
+	if want_trace {
+		TRACE.with_borrow_mut(|t| *t = Some(vec![]));
+	}
+	let mut out = vec![json!({"init": vicut_json(&v)})];
+	let empty = vec![];
+	for step in req["steps"].as_array().unwrap_or(&empty) {
+		let kind = step[0].as_str().unwrap_or("");
+		let arg = step[1].as_str().unwrap_or("");
+		let c0 = v.current_buffer().cursor.get();
+		let res = match kind {
+			"field" => match v.read_field(arg) { Ok(f) => json!({"ok": f}), Err(e) => json!({"err": e}) },
+			"move" => match v.move_cursor(arg) { Ok(()) => json!({"ok": null}), Err(e) => json!({"err": e}) },
+			"normal" => { v.set_normal_mode(); json!({"ok": null}) }
+			_ => json!({"err": "bad step"}),
+		};
+		let after = vicut_json(&v);
+		let post = if !keep_mode && kind != "normal" {
+			v.set_normal_mode();
+			Some(vicut_json(&v))
+		} else { None };
+		out.push(json!({"c0": c0, "res": res, "after": after, "post": post, "trace": take_trace()}));
+	}
+	json!({"steps": out})
+}
+
+fn op_keys(req: &Value) -> Value {
+	let bytes: Vec<u8> = req["bytes"].as_array().map(|a| a.iter().map(|b| b.as_u64().unwrap_or(0) as u8).collect()).unwrap_or_default();
+	let mut r = RawReader::new();
+	if req["escaped"].as_bool().unwrap_or(false) { r.is_escaped = true; }
+	r.load_bytes(&bytes);
+	let mut keys = vec![];
+	while let Some(k) = r.read_key() {
+		keys.push(key_json(&k));
+	}
+	json!({"keys": keys, "left": r.bytes.iter().copied().collect::<Vec<u8>>(), "escaped": r.is_escaped})
+}
+
+fn op_exec(req: &Value) -> Value {
+	let opts = opts_from(&req["opts"]);
+	set_regs(&req["regs"]);
+	let file = req.get("file").and_then(|f| f.as_str()).map(PathBuf::from);
+	let mut results = vec![];
+	// "texts": run execute() on each text in turn on this same thread (register-leak probe)
+	let texts: Vec<String> = match req.get("texts").and_then(|t| t.as_array()) {
+		Some(a) => a.iter().map(|t| t.as_str().unwrap_or("").to_string()).collect(),
+		None => vec![req["text"].as_str().unwrap_or("").to_string()],
+	};
+	for text in texts {
+		match crate::execute(&opts, text, file.clone()) {
+			Ok(r) => results.push(json!({"ok": records_json(&r)})),
+			Err(e) => results.push(json!({"err": e})),
+		}
+	}
+	json!({"results": results, "regs": regs_json()})
+}
+
+fn op_format(req: &Value) -> Value {
+	let mut recs = records_from(&req["records"]);
+	if req["trim"].as_bool().unwrap_or(false) {
+		crate::trim_fields(&mut recs);
+	}
+	match req["mode"].as_str().unwrap_or("standard") {
+		"json" => json!({"out": crate::format_output_json(recs)}),
+		"template" => match crate::format_output_template(req["template"].as_str().unwrap_or(""), recs) {
+			Ok(s) => json!({"out": s}),
+			Err(e) => json!({"err": e}),
+		},
+		"trim" => json!({"records": records_json(&recs)}),
+		_ => json!({"out": crate::format_output_standard(req["delim"].as_str().unwrap_or(" "), recs)}),
+	}
+}
+
+fn op_json_files(req: &Value) -> Value {
+	let files: Vec<(PathBuf, Vec<Vec<(String, String)>>)> = req["files"].as_array().map(|a| a.iter().map(|f| {
+		(PathBuf::from(f[0].as_str().unwrap_or("")), records_from(&f[1]))
+	}).collect()).unwrap_or_default();
+	json!({"out": crate::format_output_json_files(files)})
+}
+
+fn op_seg(req: &Value) -> Value {
+	let text = req["text"].as_str().unwrap_or("");
+	let offs = fresh_offsets(text);
+	let classes: Vec<u8> = text.graphemes(true).map(|g| CharClass::from(g) as u8).collect();
+	let widths: Vec<usize> = text.graphemes(true).map(unicode_width::UnicodeWidthStr::width).collect();
+	json!({"offsets": offs, "classes": classes, "widths": widths, "len": text.len()})
+}
+
+fn op_regex(req: &Value) -> Value {
+	let pat = req["pattern"].as_str().unwrap_or("");
+	match regex::Regex::new(pat) {
+		Err(e) => json!({"err": e.to_string()}),
+		Ok(re) => {
+			let empty = vec![];
+			let hays = req["haystacks"].as_array().unwrap_or(&empty);
+			let res: Vec<Value> = hays.iter().map(|h| {
+				let h = h.as_str().unwrap_or("");
+				json!(re.find_iter(h).map(|m| json!([m.start(), m.end()])).collect::<Vec<_>>())
+			}).collect();
+			json!({"matches": res})
+		}
+	}
+}
+
+fn op_diff(req: &Value) -> Value {
+	let a = req["a"].as_str().unwrap_or("");
+	let b = req["b"].as_str().unwrap_or("");
+	edit_json(&Edit::diff(a, b, req["cursor"].as_u64().unwrap_or(0) as usize))
+}
+
+fn op_parse_vic(req: &Value) -> Value {
+	match crate::vic::parse_vic(req["script"].as_str().unwrap_or("")) {
+		Ok(o) => json!({"opts": opts_json(&o)}),
+		Err(e) => json!({"err": e}),
+	}
+}
+
+fn op_lines(req: &Value) -> Value {
+	json!({"lines": crate::get_lines(req["text"].as_str().unwrap_or(""))})
+}
+
+fn op_expand(req: &Value) -> Value {
+	let mut v = ViCut::new(String::new(), 0).unwrap();
+	if let Some(vars) = req["vars"].as_object() {
+		for (k, val) in vars {
+			let _ = v.set_var(k.clone(), Val::Str(val.as_str().unwrap_or("").to_string()));
+		}
+	}
+	match v.expand_literal(req["text"].as_str().unwrap_or("")) {
+		Ok(s) => json!({"out": s}),
+		Err(e) => json!({"err": e}),
+	}
+}
+
+fn dispatch(req: &Value) -> Value {
+	match req["op"].as_str().unwrap_or("") {
+		"ping" => json!({"pong": true}),
+		"session" => op_session(req),
+		"keys" => op_keys(req),
+		"exec" => op_exec(req),
+		"format" => op_format(req),
+		"json_files" => op_json_files(req),
+		"seg" => op_seg(req),
+		"regex" => op_regex(req),
+		"diff" => op_diff(req),
+		"parse_vic" => op_parse_vic(req),
+		"lines" => op_lines(req),
+		"expand" => op_expand(req),
+		other => json!({"err": format!("unknown op {other}")}),
+	}
+}
+
+fn serve() {
+	std::panic::set_hook(Box::new(|info| {
+		let msg = if let Some(s) = info.payload().downcast_ref::<&str>() { s.to_string() }
+			else if let Some(s) = info.payload().downcast_ref::<String>() { s.clone() }
+			else { "?".to_string() };
+		let loc = info.location().map(|l| format!("{}:{}", l.file(), l.line())).unwrap_or_default();
+		*LAST_PANIC.lock().unwrap() = Some((msg, loc));
+	}));
+	let stdin = std::io::stdin();
+	let stdout = std::io::stdout();
+	for line in stdin.lock().lines() {
+		let Ok(line) = line else { break };
+		if line.trim().is_empty() { continue }
+		let req: Value = match serde_json::from_str(&line) {
+			Ok(v) => v,
+			Err(e) => {
+				let mut out = stdout.lock();
+				writeln!(out, "{}", json!({"bad_request": e.to_string()})).ok();
+				out.flush().ok();
+				continue
+			}
+		};
+		let id = req["id"].clone();
+		*LAST_PANIC.lock().unwrap() = None;
+		// A fresh thread per request: thread-local REGISTERS start empty, a panic is contained.
+		let handle = std::thread::Builder::new().stack_size(64 << 20).spawn(move || dispatch(&req)).unwrap();
+		let mut resp = match handle.join() {
+			Ok(v) => v,
+			Err(_) => {
+				let (msg, site) = LAST_PANIC.lock().unwrap().clone().unwrap_or_default();
+				json!({"panic": msg, "site": site})
+			}
+		};
+		if let Some(o) = resp.as_object_mut() { o.insert("id".into(), id); }
+		let mut out = stdout.lock();
+		writeln!(out, "{resp}").ok();
+		out.flush().ok();
+	}
+}
